@@ -94,12 +94,12 @@ pub fn run_prop<T, S>(
     *res = acc.into_inner();
     match result {
         Ok(()) => {}
-        Err(TestError::Fail(_reason, minimal)) => {
+        Err(TestError::Fail(reason, minimal)) => {
             // recompute signature/what on the minimal value
             let mut out = CaseOut::default();
             let (sig, what) = match test(&minimal, &mut out) {
                 Err(f) => f,
-                Ok(()) => (String::new(), "failure did not reproduce on the shrunk value (flaky?)".to_string()),
+                Ok(()) => (String::new(), format!("failure did not reproduce on the shrunk value (flaky?); reported as: {reason}")),
             };
             res.count("shrunk_failures", 1);
             res.violations.push(Violation { check: check.to_string(), signature: sig, what, case: serde_json::json!({"check": check, "input": to_json(&minimal)}) });
